@@ -104,6 +104,13 @@ var c18Special = []pparse.Call{
 }
 
 func (w *parseWork) seqCall(r *simrt.RNG, thorough bool) pparse.Call {
+	if r.Intn(60) == 0 {
+		// an error early in a large file: whoever stops reading must still see the scanner out
+		bad := []string{"{foo}", "{if}", "{print 1 2}", "{call .u data=\"[1 2\"/}", "{/if}", "{css $x +, a}", "{msg desc=\"\"}{plural $n}"}[r.Intn(7)]
+		unit := []string{"hello {$x} world\n", "{if $x}a{else}b{/if} ", "<b>{$x|noAutoescape}</b>\n", "text // c\n"}[r.Intn(4)]
+		size := (70 + r.Intn(60)) << 10
+		return pparse.Call{Entry: "file", Input: "{namespace a}\n/** @param x */\n{template .t}\n" + bad + "\n" + strings.Repeat(unit, size/len(unit)) + "{/template}\n", Kind: "early-error-large"}
+	}
 	switch x := r.Intn(100); {
 	case x < 12:
 		return c18Special[r.Intn(len(c18Special))]
@@ -178,6 +185,14 @@ func (w *parseWork) seqCall(r *simrt.RNG, thorough bool) pparse.Call {
 	}
 }
 
+// LingerLimit bounds the simulated steps the tasks started by a parse call may still take after
+// the call has returned (on the pinned tree: the scanner finishes its last send, closes the
+// channel and returns).
+const LingerLimit = 500
+
+// lastLinger is the largest number of steps any call of the last sequence left to its tasks.
+var lastLinger int64
+
 // runSeq executes the calls in one simulation and applies the C18 oracle after every call.
 func runSeq(sc seqCase, replay bool) (*wk.Failure, *simrt.Result, []string, int) {
 	ch, _ := pparse.ChooserFor(sc.Variant, sc.SchedSeed)
@@ -190,6 +205,8 @@ func runSeq(sc seqCase, replay bool) (*wk.Failure, *simrt.Result, []string, int)
 	}
 	var leakAt = -1
 	var leak simrt.LeakInfo
+	var lingerAt = -1
+	var lingerSteps, maxLinger int64
 	var outcomes []string
 	done := 0
 	res := simrt.Run(simrt.Config{Budget: budget, Chooser: ch, NsPerStep: simrt.SpeedFor(sc.SchedSeed + uint64(sc.Variant))}, func() {
@@ -207,7 +224,15 @@ func runSeq(sc seqCase, replay bool) (*wk.Failure, *simrt.Result, []string, int)
 			}
 			done++
 			// the call has returned: let every remaining task run until nothing can move
-			for _, l := range simrt.Idle() {
+			stepsAtReturn := simrt.Steps()
+			leaks := simrt.Idle()
+			if d := simrt.Steps() - stepsAtReturn; d > maxLinger {
+				maxLinger = d
+				if d > LingerLimit && lingerAt < 0 {
+					lingerAt, lingerSteps = i, d
+				}
+			}
+			for _, l := range leaks {
 				if !known[l.Task] {
 					known[l.Task] = true
 					if leakAt < 0 {
@@ -215,14 +240,30 @@ func runSeq(sc seqCase, replay bool) (*wk.Failure, *simrt.Result, []string, int)
 					}
 				}
 			}
-			if leakAt >= 0 {
+			if leakAt >= 0 || lingerAt >= 0 {
 				return
 			}
 		}
 	})
+	lastLinger = maxLinger
 	if res.Budget || res.Deadlock {
 		// that is C05's verdict, not a leak
 		return nil, res, outcomes, done
+	}
+	if lingerAt >= 0 && leakAt < 0 {
+		c := sc.Calls[lingerAt]
+		out := sc
+		if len(res.Decisions) <= 5000 {
+			out.Decisions = res.Decisions
+			if out.Decisions == nil {
+				out.Decisions = []simrt.Decision{}
+			}
+		}
+		b, _ := json.Marshal(out)
+		return &wk.Failure{Class: "lingering", Site: "a task started by the call kept working after the call had returned",
+			Detail: fmt.Sprintf("after call %d (%s %q, outcome %s) returned, the tasks it had started ran for another %d simulated steps before they exited (limit %d: finishing a send and closing the channel takes a few dozen): the scanner had not exited when the call returned",
+				lingerAt, c.Entry, trunc(c.Input+strings.Join(c.Files, "|"), 120), outcomes[lingerAt], lingerSteps, LingerLimit),
+			Replay: b}, res, outcomes, done
 	}
 	if leakAt < 0 && len(res.Leaks) > 0 {
 		leakAt, leak = len(sc.Calls)-1, res.Leaks[0]
@@ -323,6 +364,7 @@ func C18(c *wk.Ctx) {
 			u.Steps += res.Steps
 			digest = digest*1099511628211 ^ res.TraceHash ^ uint64(res.Steps)<<1 ^ wk.FNV(strings.Join(outcomes, ","))
 			u.Counters["sequences"]++
+			u.MaxCounter("max_steps_left_to_tasks_after_return", lastLinger)
 			u.Counters["tasks_spawned"] += int64(res.Tasks - 1)
 			u.Counters["switches"] += res.Switches
 			u.Counters["simulated_nanoseconds"] += res.SimNanos
